@@ -10,6 +10,10 @@ use std::sync::Arc;
 use std::time::Instant;
 
 fn main() {
+    if checks::exec::IS_F32 {
+        // values computed in single precision carry ~1e-7 relative noise: widen the undecidable band around relu kinks
+        refmodel::ops::set_kink_rel(1e-4);
+    }
     let args: Vec<String> = std::env::args().collect();
     let mut pos = vec![];
     let mut tier = std::env::var("VERIF_TIER").unwrap_or_else(|_| "quick".into());
@@ -55,9 +59,16 @@ fn main() {
     // watchdog: a single case running longer than the limit is a hang -> inconclusive (exit 2), never a violation
     {
         let hb = heartbeats.clone();
+        // the whole run has a wall-clock budget too (a tree on which every case is slow, e.g. path-proportional
+        // backward work, would otherwise keep a check busy for hours): exhausting it is inconclusive as well
+        let budget_ms: u64 = std::env::var("VERIF_TIME_LIMIT_S").ok().and_then(|v| v.parse::<u64>().ok()).unwrap_or(if tier == Tier::Thorough { 6 * 3600 } else { 1800 }) * 1000;
         std::thread::spawn(move || loop {
             std::thread::sleep(std::time::Duration::from_secs(2));
             let now = started.elapsed().as_millis() as u64;
+            if now > budget_ms {
+                eprintln!("INCONCLUSIVE: the run exceeded its wall-clock budget of {} s", budget_ms / 1000);
+                std::process::exit(2);
+            }
             for (w, h) in hb.iter().enumerate() {
                 let t = h.load(Ordering::Relaxed);
                 if t != 0 && now > t + 600_000 {
